@@ -112,7 +112,7 @@ def _exhaustive():
 
 def gen_cases(rng, tier):
     cases = []
-    n = 1300 if tier == "quick" else 12000
+    n = 2600 if tier == "quick" else 12000
     for _ in range(n):
         future = rng.random() < 0.4
         nc = rng.choice([1, 1, 2, 2, 3])
